@@ -96,6 +96,11 @@ pub fn run(ctx: &mut Ctx) {
             let res = run_batch(&fields, &[Val::Struct(out.clone(), 0)]);
             ctx.add_eval(&format!("dup{}", g), true);
             if let Out::Ok(_) = res { ctx.fail(0, "duplicate_field_accepted", format!("group {}: {:?}", g, out)); }
+            // the same through the map protocol (what #[serde(flatten)] and hand-written impls use)
+            let as_map = Val::Map(out.iter().map(|(k, v)| (Val::Str(k.clone()), v.clone())).collect());
+            let res = run_batch(&fields, &[as_map]);
+            ctx.add_eval(&format!("dupmap{}", g), true);
+            if let Out::Ok(_) = res { ctx.fail(0, "duplicate_field_accepted", format!("group {} (map presentation): {:?}", g, out)); }
         }
         // Item / Items wrappers = one-field record named item
         if g % 4 == 0 {
